@@ -304,6 +304,8 @@ func init() {
 		Make: func(r *rand.Rand, seed int64, chain int, tier string) *Scenario {
 			p := txProfile()
 			p.PBigAmt = 0.45 // bias to failures after signature/nonce validation
+			// rejections that come after the check phase has replayed a fee conversion through an order book
+			p.W["dustorder"], p.W["remdust"], p.W["fillorder"], p.W["addorder"] = 8, 8, 5, 6
 			sc := baseScenario("C03", r, seed, chain, tier, p, func(g *GenCfg, n *NodeCfg) {
 				g.NPool = 2 + r.Intn(4)
 				g.NCoin = 1 + r.Intn(3)
